@@ -708,6 +708,9 @@ def attribute(kind, exc, doc, src, diag, shapes, bad_keys, nfkc_keys, offending=
             return 'gs-key-not-identifier'
         if keys and keys <= set(nfkc_keys):
             return 'gs-key-nfkc-normalised'
+        if offending and has_union_with_list(src) and all(k == '<no class instance here>' for _p, k in offending):
+            # Union[List, List['X']]: the loader commits to the first (bare) List member and leaves the objects raw
+            return 'gs-union-with-list'
         return None
     if kind == 'gen:load':
         if name == 'MissingFields':
